@@ -34,7 +34,9 @@ static uint8_t vpl_b64valid(const uint8_t *s, uint32_t n, uint32_t hint) { uint8
 static QAD *c06_b64enc(QAD *raw) { uint32_t n = raw->f1; if (n == 0) return qb_new(0, 0); ASSERT(!numB(raw).isnum, "toBase64 of an abstract number string");
   if (c06_is_lit(raw, "n,,", 3)) return c06_from((const uint8_t*)"biws", 4);
   uint32_t h = c06_hint(raw); ASSERT(2 * n <= QB_CAP, "QByteArray capacity of the model exceeded (base64)"); QAD *d = qb_new(2 * n, 2 * h); vpl_b64enc(d, qb_bytes(raw), n, h); C06_BD(d)[2 * n] = 0; return d; }
+#ifndef C06_B64CAP
 #define C06_B64CAP 3
+#endif
 static struct { QAD *txt; QAD *out; uint8_t ok; } c06_b64tab[C06_B64CAP]; static uint32_t c06_nb64;
 static uint8_t c06_b64_expect_valid;   /* harness switch: every text decoded is known to come from the encoder (asserted) */
 void vp_b64_expect_valid(uint8_t on) { c06_b64_expect_valid = on; }
@@ -115,7 +117,9 @@ void _ZNK4QMapIc10QByteArrayE5valueERKcRKS0_(char *ret, char *self, char *key, c
 #ifndef C06_DIGLEN
 #define C06_DIGLEN 4
 #endif
+#ifndef C06_ORC_CAP
 #define C06_ORC_CAP 14
+#endif
 struct c06_orc { uint8_t kind; uint32_t alg; QAD *a, *b; uint32_t iters; uint64_t dklen; uint8_t out[C06_DIGLEN]; };
 static struct c06_orc c06_log[C06_ORC_CAP]; static uint32_t c06_orc_n;
 static QAD *c06_oracle(uint8_t kind, uint32_t alg, QAD *a, QAD *b, uint32_t iters, uint64_t dklen) {
